@@ -383,6 +383,11 @@ theorem fresh_startOp (sh : Shared) (th : Thread) (op : Op) (hidle : th.pc = .id
       · simp only [Thread.setIter, hidle]; trivial
       · rw [hidle]; trivial
     · rw [hidle]; trivial
+  · split
+    · split
+      · trivial
+      · rw [hidle]; trivial
+    · rw [hidle]; trivial
 
 theorem Sys.step_none {s : Sys} {t : Nat} (h : s.threads[t]? = none) : (s.step t).1 = s := by
   unfold Sys.step; rw [h]
